@@ -31,7 +31,7 @@ def fmt_bound(ns):
 
 
 def gen_case(rng, tier):
-    k = rng.choice(("text", "text", "text", "text", "utmp", "utmp", "evtx", "journal"))
+    k = rng.choice(("text", "text", "text", "text", "utmp", "utmp", "evtx", "journal", "yearless"))
     opts = ["--color", "never", "--tz-offset", "+00:00"]
     msgs = None
     window = None
@@ -59,6 +59,17 @@ def gen_case(rng, tier):
                 a, b = b, a
             window = (a, b)
             opts += ["-a", fmt_bound(a), "-b", fmt_bound(b)]
+    elif k == "yearless":
+        # a log whose stamps carry no year: the one kind of content for which a modification time matters. The world keeps it
+        # consistent -- the plain file's own time, a gz header's MTIME (or 0 with the .gz file's own time carrying it), a tar
+        # member's time, the compressed file's own time for bz2 / xz / lz4 all say when the log was last written
+        import c11
+        off_min = 0
+        src = c11.gen_source(rng, "c.log", b"Y", off_min, rng.choice((0, 1, 2)), rng.choice((2, 5, 12, 30)))
+        content, msgs = src.plain, None
+        base = "c.log"
+        opts += ["-u", "-d", "%Y%m%dT%H%M%S|", "--blocksz", str(rng.choice((64, 128, 512, 4096, 65536)))]
+        window = ("yearless_mtime", src.mtime)
     elif k == "utmp":
         content = None
         for _ in range(10):
@@ -122,6 +133,10 @@ def run_case(seed, i, tier):
     if msgs:
         span = (msgs[0].instant // 1_000_000_000, msgs[-1].instant // 1_000_000_000)
     mtime = world.mtime_around(rng, *span)
+    yl_mtime = None
+    if kind == "yearless":
+        yl_mtime = mtime = window[1]
+        window = None
     cr = CaseResult()
     prng = core.rng_for(seed, PROP, i, "plan")
     plan = core.random_plan(prng, 1, budget=3_000_000)
@@ -152,7 +167,15 @@ def run_case(seed, i, tier):
     mtime_plain = mtime
     for form in forms:
         mtime = world.mtime_around(rng, *span)
-        name, data, descr = stored_form(rng, form, base, content, world.mtime_around(rng, *span))
+        inner = world.mtime_around(rng, *span)
+        if yl_mtime is not None:
+            if form == "gz" and rng.random() < 0.4:
+                inner, mtime = 0, yl_mtime                 # no MTIME in the header: the .gz file's own time counts
+            elif form in ("gz", "tar"):
+                inner = yl_mtime                           # (the outer file's own time must not matter then)
+            else:
+                inner, mtime = 0, yl_mtime
+        name, data, descr = stored_form(rng, form, base, content, inner)
         this_ref = ref
         if form == "tar" and kind == "text" and rng.random() < 0.4:
             # two log members in one archive == the two plain files named in member order
@@ -221,7 +244,7 @@ RULE = ("one case = one log (generated text with sizes small / one block / exact
         "printed from its plain form and from gz / bz2 / xz / lz4 / tar forms with seed-chosen codec parameters; "
         "non-trivial = a run of a stored form; distinct = scenario digest (content, container bytes, options)")
 ASSUMPTIONS = ["journal / evtx / accounting inputs are the files shipped in /repo/logs",
-               "year-less logs (mtime-dependent) are handled by C11, not here"]
+               "year-less logs: one case in nine, with every place a modification time can be stored saying the same (the inference itself is C11's)"]
 
 
 def main(tier):
